@@ -38,7 +38,7 @@ var (
 // dependency's installed version satisfies its constraint.
 //
 //gosym:harness
-//gosym:cover satisfied missing-direct missing-transitive wrong-version digest-constraint
+//gosym:cover satisfied missing-direct missing-transitive wrong-version digest-constraint self-is-a-dependency-already
 func HarnessC17Resolve() {
 	s := kube.New()
 	s.Register(&v1beta1.Lock{}, &v1beta1.LockList{}, "pkg.crossplane.io", "Lock")
@@ -90,7 +90,15 @@ func HarnessC17Resolve() {
 		lock.Packages = append(lock.Packages, lp)
 	}
 	if cIn {
-		lock.Packages = append(lock.Packages, v1beta1.LockPackage{Name: "pkg-c-rev", Type: ptr.To(v1beta1.ProviderPackageType), Source: zzSources[2], Version: zzVersions[vC]})
+		lc := v1beta1.LockPackage{Name: "pkg-c-rev", Type: ptr.To(v1beta1.ProviderPackageType), Source: zzSources[2], Version: zzVersions[vC]}
+		if zz.Bool("lock.c.dependsOnSelf") {
+			// a package already in the lock depends on the revision being
+			// resolved: the graph knows it as an implied node before its own
+			// entry is added
+			lc.Dependencies = []v1beta1.Dependency{{Package: zzSources[0], Type: ptr.To(v1beta1.ProviderPackageType), Constraints: ">=v0.0.0"}}
+			zz.Cover("self-is-a-dependency-already")
+		}
+		lock.Packages = append(lock.Packages, lc)
 	}
 	selfState := zz.Choose("lock.self", 3) // absent, listed, listed under another source (image relocated)
 	selfIn := selfState != 0
